@@ -466,7 +466,11 @@ func execRun(c *ctx, in ev) ev {
 	mkNonces := func() [][]byte {
 		ns := [][]byte{}
 		for i := 0; i < n; i++ {
-			ns = append(ns, randBytes(r, nonceLen))
+			l := nonceLen
+			if at, ok := mut["at"]; ok && jInt(at) != i+1 { // only the nonce at this position has the odd length
+				l = 32
+			}
+			ns = append(ns, randBytes(r, l))
 		}
 		return ns
 	}
@@ -887,7 +891,8 @@ func newRLWorld(c *ctx) *rlWorld {
 	origin := "registered.example"
 	// a second registered origin, longer than two padding blocks (its block-length prefixes are NOT registered)
 	return &rlWorld{origin: origin, w: newT3World(rsaKey(0), c.seed, map[string]string{origin: "a", rlLongOrigin: "b"}),
-		other: newT3World(rsaKey(1), c.seed, map[string]string{origin: "a"}), secret: p384Scalar(c.seed, "rl-client")}
+		// (the other issuer of the process serves one more origin: issuers share nothing)
+		other: newT3World(rsaKey(1), c.seed, map[string]string{origin: "a", "only-the-other-issuer.example": "c"}), secret: p384Scalar(c.seed, "rl-client")}
 }
 
 const rlLongOrigin = "a-registered-origin-name-that-is-longer-than-two-blocks-of-padding.example" // 73 bytes
@@ -950,7 +955,7 @@ func (x *rlWorld) step(c *ctx, cls map[string]any, r *rand.Rand) ev {
 		case "Unregistered":
 			name := map[string]string{"last-byte": "registered.examplf", "prefix": "registered.exampl", "suffix": "registered.example.", "inner-nul": "registered\x00example",
 				"case": "Registered.example", "empty": "", "long": strings.Repeat("registered.example", 9),
-				"comma-suffix": "registered.example,unregistered.example", "comma-only": "registered.example,", "comma-prefix": "unregistered.example,registered.example",
+				"other-issuers-origin": "only-the-other-issuer.example", "comma-suffix": "registered.example,unregistered.example", "comma-only": "registered.example,", "comma-prefix": "unregistered.example,registered.example",
 				"block-prefix-32": rlLongOrigin[:32], "block-prefix-64": rlLongOrigin[:64], "block-prefix-31": rlLongOrigin[:31], "long-last-byte": rlLongOrigin[:72] + "f",
 				"space-suffix": "registered.example ", "space-prefix": " registered.example", "tab-suffix": "registered.example\t", "upper": "REGISTERED.EXAMPLE",
 				"nul-suffix": "registered.example\x00.attacker.example", "nul-suffix-short": "registered.example\x00a", "nul-prefix": "\x00registered.example"}[cls["variant"].(string)]
@@ -1463,11 +1468,18 @@ func execRunSeq(c *ctx, in ev) []ev {
 	// one prepares a complete honest exchange and returns the client's finalization as a function, so that the
 	// sequence can finalize the same response more than once (a retry)
 	var one func(n int, challenge []byte) (func() ([]tokens.Token, error), error)
+	// between two honest runs the long-lived issuer is shown requests it must refuse: whatever a refusal leaves behind
+	// (a sticky error, a queued result, a half-filled object) must not reach the next honest run
+	noise := func() {}
 	switch t {
 	case 1:
 		k := p384Key(c.seed, "k1")
 		iss := type1.NewBasicPrivateIssuer(k)
 		reqObj := new(type1.BasicPrivateTokenRequest)
+		noise = func() {
+			iss.Evaluate(&type1.BasicPrivateTokenRequest{TokenKeyID: iss.TokenKeyID()[31], BlindedReq: bytes.Repeat([]byte{0xff}, 49)})
+			reqObj.Unmarshal([]byte{0, 1, 2, 3})
+		}
 		oracle = func(tok tokens.Token) bool {
 			return tok.TokenType == 1 && bytes.Equal(fullEvaluate(oprf.SuiteP384, k, authInput(tok)), tok.Authenticator)
 		}
@@ -1492,6 +1504,10 @@ func execRunSeq(c *ctx, in ev) []ev {
 		k := rsaKey(1)
 		iss := type2.NewBasicPublicIssuer(k)
 		reqObj := new(type2.BasicPublicTokenRequest)
+		noise = func() {
+			iss.Evaluate(&type2.BasicPublicTokenRequest{TokenKeyID: iss.TokenKeyID()[31], BlindedReq: bytes.Repeat([]byte{0xff}, 256)})
+			reqObj.Unmarshal([]byte{0, 2, 2, 3})
+		}
 		oracle = func(tok tokens.Token) bool { return tok.TokenType == 2 && verifyPSS(&k.PublicKey, tok) == nil }
 		one = func(n int, challenge []byte) (func() ([]tokens.Token, error), error) {
 			st, err := type2.NewBasicPublicClient().CreateTokenRequest(challenge, randNonce(r), iss.TokenKeyID(), iss.TokenKey())
@@ -1514,10 +1530,23 @@ func execRunSeq(c *ctx, in ev) []ev {
 		w := newT3World(rsaKey(2), c.seed, map[string]string{"seq.example": "a", "": "b", "a-much-longer-origin-name-than-one-block.example": "c"})
 		origins := []string{"seq.example", "a-much-longer-origin-name-than-one-block.example", "", "seq.example"}
 		i := 0
+		var lastReq []byte
+		noise = func() {
+			if lastReq != nil { // the request answered last, with one signature bit flipped; and for an origin nobody registered
+				w.issuer.Evaluate(flipBit(lastReq, 8*len(lastReq)-5))
+			}
+			if st, err := type3.NewRateLimitedClientFromSecret(p384Scalar(c.seed, "seq-client")).CreateTokenRequest([]byte("c"), make([]byte, 32),
+				p384Scalar(c.seed, "seq-noise-blind"), w.issuer.TokenKeyID(), w.issuer.TokenKey(), "nobody.example", w.issuer.NameKey()); err == nil {
+				w.issuer.Evaluate(st.Request().Marshal())
+			}
+		}
 		oracle = func(tok tokens.Token) bool { return tok.TokenType == 3 && verifyPSS(w.issuer.TokenKey(), tok) == nil }
 		one = func(n int, challenge []byte) (func() ([]tokens.Token, error), error) {
 			i++
 			art, err := honestT3(w, p384Scalar(c.seed, "seq-client"), p384Scalar(c.seed, fmt.Sprintf("seq-blind-%d", i)), challenge, randNonce(r), origins[i%len(origins)])
+			if art != nil {
+				lastReq = art.req
+			}
 			if err != nil {
 				return nil, err
 			}
@@ -1530,6 +1559,11 @@ func execRunSeq(c *ctx, in ev) []ev {
 		k := ristrettoKey(c.seed, "k1")
 		iss := type5.NewBatchedPrivateIssuer(k)
 		reqObj := new(type5.BatchedPrivateTokenRequest)
+		noise = func() {
+			bad := bytes.Repeat([]byte{0xff}, 32)
+			iss.Evaluate(&type5.BatchedPrivateTokenRequest{TokenKeyID: iss.TokenKeyID()[31], BlindedReq: [][]byte{bad, bad, bad}})
+			reqObj.Unmarshal([]byte{0, 5, 2, 3})
+		}
 		oracle = func(tok tokens.Token) bool {
 			return tok.TokenType == 5 && bytes.Equal(fullEvaluate(oprf.SuiteRistretto255, k, authInput(tok)), tok.Authenticator)
 		}
@@ -1556,6 +1590,9 @@ func execRunSeq(c *ctx, in ev) []ev {
 		n := jInt(nv)
 		e := ev{"op": "SeqRun", "t": t, "i": i, "n": n, "ok": false, "count": 0, "valid": false, "again_ok": true, "err": "", "panic": ""}
 		e["panic"] = guard(func() {
+			if i > 0 {
+				guard(noise)
+			}
 			fin, err := one(n, randBytes(r, 8+i))
 			if err != nil {
 				e["err"] = err.Error()
@@ -2031,6 +2068,12 @@ func genIssuance(c *ctx, emit func(ev)) {
 				for _, kl := range []int{1, 31, 33, 64} {
 					run(t, n, 16, 14, ev{"kind": "OddKeyID", "len": kl})
 				}
+				if t == 5 { // one odd nonce deep inside a larger batch (beyond any chunk a batch may be processed in)
+					for _, at := range [][2]int{{20, 17}, {40, 33}, {70, 70}} {
+						run(5, at[0], 16, 0, ev{"kind": "OddNonce", "len": 31, "at": at[1]})
+						run(5, at[0], 16, 0, ev{"kind": "OddNonce", "len": 33, "at": at[1], "with_blinds": true})
+					}
+				}
 				if t != 3 { // the same through the ...WithBlind(s) entry points
 					for _, nl := range []int{0, 31, 33, 64} {
 						run(t, n, 16, 14, ev{"kind": "OddNonce", "len": nl, "with_blinds": true})
@@ -2166,7 +2209,7 @@ func genIssuance(c *ctx, emit func(ev)) {
 				rl(ev{"kind": "BadInner", "k": k})
 			}
 			for _, v := range []string{"last-byte", "prefix", "suffix", "inner-nul", "case", "empty", "long", "nul-suffix", "nul-suffix-short", "nul-prefix",
-				"space-suffix", "space-prefix", "tab-suffix", "upper", "comma-suffix", "comma-only", "comma-prefix", "block-prefix-32", "block-prefix-64", "block-prefix-31", "long-last-byte"} {
+				"space-suffix", "space-prefix", "tab-suffix", "upper", "other-issuers-origin", "comma-suffix", "comma-only", "comma-prefix", "block-prefix-32", "block-prefix-64", "block-prefix-31", "long-last-byte"} {
 				rl(ev{"kind": "Unregistered", "variant": v})
 			}
 		}
@@ -2229,6 +2272,7 @@ func genIssuance(c *ctx, emit func(ev)) {
 			for _, comp := range [][2]string{{"n1+n2", "b1+b2"}, {"n1+n2", "b2+b1"}, {"n2+n1", "b2+b1"}, {"n1", "b1"}, {"n2", "b2"}, {"n1", "b2"},
 				{"n1+n2+n3", "b1+b2+one"}, {"n3+n1", "one+b1"}, {"n1+n2", "b1+b1"}, {"n1+n2", "b1+b2"}, {"n1+n2", "lead0+b2"}, {"n1+n2", "b3+b4"},
 				{"many511", "mb"}, {"many512", "mb"}, {"many512", "mb"}, {"many512", "mc"},
+				{"many512", "mb"}, {"many512", "mb"}, {"many512", "mb"}, {"many512", "mb"}, {"many64", "mb"}, {"many64", "mb"}, {"many64", "mb"}, {"many64", "mb"},
 				{"n1", "zero"}, {"n1+n2", "b1+zero"}, {"n1+n2", "zero+b2"}, {"n1", "zero-order"}, {"n1", "zero-top"}, {"n1", "zero-order-top"},
 				{"n1+n2", "b1+zero-order"}, {"n1+n2", "zero-top+b2"},
 				// batches in which a nonce is repeated, each row twice: the request is a function of the arguments (order included)
